@@ -151,8 +151,9 @@ end
 
 /-- `rang`'s reading of one serialized bound as an int: `'*'` counts as 0 -/
 def toIntB (t : Bytes) : Option Int := if t == starQ then some ((atoi t).getD 0) else atoi t
-/-- `rang`'s reading of one serialized bound as a float -/
-def toFltB (t : Bytes) : Option F64 := if t == b "*" then some ((parseFloat t).getD F64.zero) else parseFloat t
+/-- `rang`'s reading of one serialized bound as a float (since fix F12 of `toFloats`: `'*'` counts as 0, as in
+    `toIntB`; before, the test was against the bare `*`, which no serialized bound ever is) -/
+def toFltB (t : Bytes) : Option F64 := if t == starQ then some ((parseFloat t).getD F64.zero) else parseFloat t
 
 /-- the three layouts of `rangeCmp`: an open lower end, an open upper end, two-sided -/
 def cmpForm (x : Ast) (incl : Bool) (tlo thi : Bytes) (clo chi : Ast) : Ast :=
@@ -237,9 +238,10 @@ def reInt (t : Bytes) : List Ast :=
   match toIntB t with
   | some i => [intAst i]
   | none => []
-/-- the `%.2f` re-formatting of a value text that `strconv.ParseFloat` reads -/
+/-- the `%.2f` re-formatting of a value text that `strconv.ParseFloat` reads (the open end `'*'` has none: in the
+    float layout `rang` never prints the open end) -/
 def reFlt (t : Bytes) : List Ast :=
-  match toFltB t with
+  match parseFloat t with
   | some f => [fixedAst f]
   | none => []
 
@@ -410,8 +412,8 @@ theorem toFloats_eq (a c : Bytes) :
       | some i, some j => some (i, j)
       | _, _ => none := by
   unfold toFloats toFltB
-  generalize (if (a == b "*") = true then some ((parseFloat a).getD F64.zero) else parseFloat a) = x
-  generalize (if (c == b "*") = true then some ((parseFloat c).getD F64.zero) else parseFloat c) = y
+  generalize (if (a == starQ) = true then some ((parseFloat a).getD F64.zero) else parseFloat a) = x
+  generalize (if (c == starQ) = true then some ((parseFloat c).getD F64.zero) else parseFloat c) = y
   cases x <;> cases y <;> rfl
 
 theorem toInts_some {a c : Bytes} {i j : Int} (h : toInts a c = some (i, j)) : toIntB a = some i ∧ toIntB c = some j := by
@@ -436,11 +438,24 @@ theorem val_ne_star (q : Prim) (hq : cleanPrim q = true) : (primTextOf q == b "*
   | _ => simp [cleanPrim] at hq
 
 /-- a float that `rang` reads from the text of a value is finite -/
+theorem parseFloat_starQ : parseFloat starQ = none := parseFloat_quote _
+
+/-- off the open end, `rang` reads the bound with `strconv.ParseFloat` -/
+theorem toFltB_ne {t : Bytes} (h : (t == starQ) = false) : toFltB t = parseFloat t := by
+  unfold toFltB; rw [h]; rfl
+
+theorem toFltB_starQ : toFltB starQ = some F64.zero := by
+  unfold toFltB
+  rw [parseFloat_starQ]; rfl
+
 theorem toFltB_finite (q : Prim) (hq : cleanPrim q = true) (g : F64) (h : toFltB (primTextOf q) = some g) :
     g.isFinite = true := by
-  unfold toFltB at h
-  rw [val_ne_star q hq] at h
-  simp only [Bool.false_eq_true, ↓reduceIte] at h
+  cases hs : primTextOf q == starQ with
+  | true =>
+    rw [eq_of_beq hs, toFltB_starQ] at h
+    cases h; decide
+  | false =>
+  rw [toFltB_ne hs] at h
   cases q with
   | str s =>
     have : parseFloat (sqlQuote s) = none := parseFloat_quote _
